@@ -167,6 +167,12 @@ func (r *renderer) typeDecl(t *TypeDecl) {
 		}
 		r.indent--
 		t.End = r.emit("}%s", r.trailLast(&t.Node))
+	case t.Kind == KSliceOf:
+		t.Start = r.emit("%s%s []%s%s%s", prefix, t.Name, r.ref(t.Elem), r.trail(&t.Node), tag(t.ID))
+		t.End = t.Start
+	case t.Kind == KMapOf:
+		t.Start = r.emit("%s%s map[string]%s%s%s", prefix, t.Name, r.ref(t.Elem), r.trail(&t.Node), tag(t.ID))
+		t.End = t.Start
 	case t.Kind == KInt:
 		t.Start = r.emit("%s%s int%s%s", prefix, t.Name, r.trail(&t.Node), tag(t.ID))
 		t.End = t.Start
@@ -378,7 +384,7 @@ func (r *renderer) wrap(w *Wrap) {
 		r.emit("case true:")
 	case WSelect:
 		w.Start = r.emit("select {%s", tr)
-		r.emit("default:")
+		r.emit("case <-(chan int)(nil):")
 	case WClosure:
 		w.Start = r.emit("func() {%s", tr)
 		closeText = "}()"
@@ -412,6 +418,13 @@ func (r *renderer) wrap(w *Wrap) {
 	r.indent++
 	r.stmts(w.Body)
 	r.indent--
+	// the body sits in a clause that is not the last one
+	switch w.Kind {
+	case WSwitch:
+		r.emit("case false:")
+	case WSelect:
+		r.emit("default:")
+	}
 	w.End = r.emit("%s%s", closeText, r.trailLast(&w.Node))
 	if w.Kind == WVarClosure {
 		r.emit("_ = %s", w.Name)
@@ -553,6 +566,25 @@ func (r *renderer) siteText(s *Site) (string, []string) {
 		text = lhs("[]*" + r.refNoPtr(s.Ref) + "{{}}")
 	case "elided.map":
 		text = lhs("map[string]" + r.refNoPtr(s.Ref) + "{\"k\": {}}")
+	case "lit.nested":
+		inner := r.tname(s.Field.Type) + "{}"
+		if s.Field.Ref.Ptr {
+			inner = "&" + inner
+		}
+		text = lhs(r.refNoPtr(s.Ref) + "{" + s.Field.Name + ": " + inner + "}")
+	case "elided.named":
+		if s.Ref.Type.Kind == KMapOf {
+			text = lhs(r.refNoPtr(s.Ref) + "{\"k\": {}}")
+		} else {
+			text = lhs(r.refNoPtr(s.Ref) + "{{}}")
+		}
+	case "mcall.promoted":
+		call := fmt.Sprintf("%s.%s(%s)", o, s.Fn.Name, callArgs(s.Fn))
+		if len(s.Fn.Results) > 0 {
+			text = lhs(call)
+		} else {
+			text = call
+		}
 	case "new":
 		text = lhs("new(" + r.refNoPtr(s.Ref) + ")")
 	case "conv":
